@@ -5,6 +5,7 @@
 #ifndef DUNE_COMMON_LRU_HH
 #define DUNE_COMMON_LRU_HH
 
+#include <cassert>
 #include <list>
 #include <utility>
 #include <map>
